@@ -150,8 +150,11 @@ class ModelsEmitter:
         # Iterate over the schemas that were processed for name generation
         # to ensure we use the final, de-collided names.
         # Sort by original schema name for deterministic __init__.py content.
+        # Deduplicate by ID - the same schema object may be registered under several keys (e.g. a $ref alias)
         sorted_schemas_for_init = sorted(
-            [s for s in self.parsed_schemas.values() if s.name and s.generation_name and s.final_module_stem],
+            {
+                id(s): s for s in self.parsed_schemas.values() if s.name and s.generation_name and s.final_module_stem
+            }.values(),
             key=lambda s: s.name,  # type: ignore
         )
 
